@@ -150,7 +150,7 @@ func init() {
 		if thorough {
 			n = 50000
 		}
-		return []CaseSet{genCrcRows(), genCrcSplits(r, n)},
-			"all 65536 register states x 256 bytes through dyncrc16.New/Write/Sum16 and Checksum (one case = one state row of 256 transitions), plus random byte strings under random write partitions with Sum/Reset; distinct = distinct result rows", true
+		return []CaseSet{genCrcRows(), genCrcSplits(r, n), genCrcMany(r, 16)},
+			"all 65536 register states x 256 bytes through dyncrc16.New/Write/Sum16 and Checksum (one case = one state row of 256 transitions), plus random byte strings under random write partitions with Sum/Reset, and 2 … 1025 hashes alive at the same time, each fed in two writes with other hashes created and fed in between; distinct = distinct result rows", true
 	}
 }
